@@ -38,6 +38,9 @@ type opState struct {
 	dialed    []string
 	failed    int
 	connected bool
+	// fine mode: the resolver's answer, stored in the model when the second
+	// critical section of the lookup begins
+	pending []string
 }
 
 type ctask struct {
@@ -47,6 +50,9 @@ type ctask struct {
 	dials    int
 	op       *opState
 	released int // scheduler step at which a stub of this task last returned into the library (0: none pending)
+	// fine mode: the next critical section of lookup is the inserting one
+	afterResolver bool
+	sawCS1        bool
 }
 
 type answerInfo struct {
@@ -55,6 +61,7 @@ type answerInfo struct {
 }
 
 type cacheWorld struct {
+	fine  bool // lock boundaries of lookup are yield points (see bodyDNSCache)
 	r     *sim.Run
 	s     *sim.Sched
 	cache *fclient.DNSCache
@@ -243,7 +250,14 @@ func (w *cacheWorld) LookupIPAddr(ctx context.Context, host string) ([]net.IPAdd
 			r.Probe("insert_over_valid_entry_of_same_host")
 		}
 	}
-	op.expect = w.model.Insert(host, addrs, now)
+	if w.fine && ts.sawCS1 {
+		// the entry is stored (and gets its expiry) when the inserting
+		// critical section runs, which other tasks and the clock may precede
+		op.pending = addrs
+		ts.afterResolver = true
+	} else {
+		op.expect = w.model.Insert(host, addrs, now)
+	}
 	op.expectHit = false
 	op.dialed, op.failed = nil, 0
 	r.Logf("t=%v %s: resolver -> %s for %s", r.Now(), name, strings.Join(ups, ","), host)
@@ -455,6 +469,7 @@ func bodyDNSCache(r *sim.Run) {
 	w := &cacheWorld{r: r, s: s, tasks: map[string]*ctask{}, owner: map[string]answerInfo{}, inResolver: map[string]int{}, native: sim.NativeMode}
 	w.size = t.Range(1, 4)
 	w.life = sim.Pick(t, []time.Duration{2 * time.Second, 10 * time.Second, time.Minute})
+	w.fine = !w.native && t.Bool()
 	nhosts := t.Range(2, 5)
 	hosts := []string{"h0.example", "h1.example", "h2.example", "h3.example", "h4.example"}[:nhosts]
 	switch t.Weighted([]int{6, 2, 1}) {
@@ -551,7 +566,57 @@ func bodyDNSCache(r *sim.Run) {
 		}
 		r.State(fmt.Sprintf("size=%d %s inres=%d", w.size, strings.Join(st, " "), len(w.inResolverHosts())))
 	}
+	if w.fine {
+		// Lock boundaries of DNSCache.lookup are yield points. A lookup has
+		// two critical sections (the check, and after the resolver call the
+		// insert): the model's Begin / Insert are evaluated at the instant
+		// each one starts. Lock sites of other functions, and goroutines
+		// that are not tasks, pass through.
+		verifrt.ResetYield()
+		verifrt.YieldHook = func(site string) {
+			name := s.CurrentTask()
+			if name == "" || !strings.Contains(site, "(*DNSCache).lookup ") {
+				return
+			}
+			ts := w.tasks[name]
+			if ts == nil {
+				return
+			}
+			r.Probe("lock_boundary_yield")
+			w.locked(func() { ts.released = 0 })
+			s.Yield(name, "lock "+site)
+			w.locked(func() {
+				defer func() { ts.released = s.Steps }()
+				op := ts.op
+				if op == nil || !strings.Contains(site, "before-") {
+					return
+				}
+				now := time.Now()
+				if ts.afterResolver {
+					ts.afterResolver = false
+					if op.pending != nil {
+						op.expect = w.model.Insert(op.host, op.pending, now)
+						op.pending = nil
+					}
+					return
+				}
+				w.settle("check section")
+				e, hit := w.model.Begin(op.host, now)
+				op.begin, op.expect, op.expectHit = now, e, hit
+				// a new lookup round starts dialling from the first address of
+				// whatever entry it finds (another task may have stored one
+				// since this operation dropped a dead entry)
+				if op.kind == "dial" && len(op.dialed) > 0 {
+					op.retried = true
+					op.dialed, op.failed = nil, 0
+				}
+				ts.sawCS1 = true
+			})
+		}
+		r.Defer(func() { verifrt.YieldHook = nil })
+	}
 	s.RunAll()
+	verifrt.YieldHook = nil
 	r.Nontriv = true // >= 2 tasks always interleave here
 	if w.everFull {
 		r.Probe("cache_reached_configured_size")
